@@ -307,6 +307,58 @@ func checkDatePair(r *vk.Run, a, b ymd) {
 	}
 }
 
+// runDatesHeldElsewhere: a Date is a calendar day whatever Location the value carries (a caller can
+// convert one from any time.Time) and whatever the process zone is. In process zones that skipped a
+// whole civil day (Pacific/Apia 2011-12-30 ...) and in ordinary ones, every ordered pair of the days
+// around such a gap, held in UTC and in a far-east / far-west fixed zone, compares by (y, m, d).
+// Runs alone (it changes time.Local).
+func runDatesHeldElsewhere(r *vk.Run) {
+	saved := time.Local
+	defer func() { time.Local = saved }()
+	held := []*time.Location{time.UTC, time.FixedZone("+14", 14*3600), time.FixedZone("-12", -12*3600)}
+	gaps := []struct {
+		zone    string
+		y, m, d int
+	}{{"Pacific/Apia", 2011, 12, 30}, {"Pacific/Kiritimati", 1994, 12, 31}, {"Pacific/Kwajalein", 1993, 8, 21}, {"America/Santiago", 2024, 9, 8}, {"UTC", 2024, 2, 29}}
+	var n int64
+	for _, g := range gaps {
+		loc, err := time.LoadLocation(g.zone)
+		if err != nil {
+			continue
+		}
+		time.Local = loc
+		days := []ymd{}
+		for k := -3; k <= 3; k++ {
+			t := time.Date(g.y, time.Month(g.m), g.d+k, 12, 0, 0, 0, time.UTC)
+			days = append(days, ymd{t.Year(), int(t.Month()), t.Day()})
+		}
+		for _, a := range days {
+			for _, b := range days {
+				for _, la := range held {
+					for _, lb := range held {
+						n++
+						da := types.Date(time.Date(a.Y, time.Month(a.M), a.D, 0, 0, 0, 0, la))
+						db := types.Date(time.Date(b.Y, time.Month(b.M), b.D, 0, 0, 0, 0, lb))
+						var o obs
+						c := datePair{a, b}
+						if p, msg, frame := vk.Guard(func() { o = observe(da, db) }); p {
+							r.Violation("C16/panic/"+frame, fmt.Sprintf("comparing %v with %v (process zone %s) panicked: %s", a, b, g.zone, msg), "date-pair", c)
+							continue
+						}
+						want, ok := refDate(r, a, b)
+						if ok && !sound(o, want) {
+							report(r, "Date(held-in-another-location)", o, want, "date-pair", c, fmt.Sprintf("a=%v held in %v, b=%v held in %v, process zone %s", a, la, b, lb, g.zone))
+						}
+					}
+				}
+			}
+		}
+	}
+	r.Count(n)
+	r.Distinct(n)
+	r.Set("dates_held_elsewhere_cases", n)
+}
+
 func checkDateTriple(r *vk.Run, a, b, c ymd) {
 	da, oka := mk(a)
 	db, okb := mk(b)
@@ -903,7 +955,7 @@ func main() {
 	for _, part := range []struct {
 		name string
 		run  func(*vk.Run)
-	}{{"hhmm", runHHmm}, {"dates", runDates}, {"datetimes", runDateTimes}, {"profiles", runProfiles}} {
+	}{{"hhmm", runHHmm}, {"dates", runDates}, {"datetimes", runDateTimes}, {"profiles", runProfiles}, {"dates-held-elsewhere", runDatesHeldElsewhere}} {
 		t0 := time.Now()
 		part.run(r)
 		r.Set("wall_s_"+part.name, time.Since(t0).Seconds())
@@ -912,6 +964,7 @@ func main() {
 	r.Rule("HH:mm: every ordered pair of the 1441 values 00:00..24:00, every triple over the boundary set; " +
 		"dates: every day 0001-01-02..9999-12-31 paired (both orders) with itself and with the day k days later for every k in date_sweep_distances_days, " +
 		"every ordered pair over the boundary set (counted as distinct only when its distance is not one of the k), every triple over the subset; " +
+		"dates held in UTC / +14:00 / -12:00 around whole-day gaps, in process zones Pacific/Apia, Kiritimati, Kwajalein, America/Santiago and UTC: every ordered pair over 7 days x 3x3 Locations; " +
 		"date-times: every ordered pair of (instant, location) over the de-duplicated instants from 1970 on × 3 locations, and every ordered pair over the instants within ±1 h 1 s of each 2024 offset change of America/New_York, Europe/London and Australia/Lord_Howe (repeated and skipped local hour) × 5 locations; " +
 		"SetTimeProfile: every (start, end) of 1441² in each segment position per transport, the other two segments fixed; " +
 		"distinct = distinct argument tuples by construction; the zero Date and pre-1970 instants are executed but neither judged nor counted as distinct")
